@@ -132,6 +132,9 @@ enum Stz {
 struct Schema {
     inherits: Vec<String>,
     stanzas: Vec<Stz>,
+    /// direct readers read through an attribute shorthand (`attribute got_NAME = x => got =
+    /// x.NAME`, used as `got_NAME = @y`): the lookup, inheritance included, is the same
+    short_reads: bool,
 }
 
 const DEF_QUERIES: &[&str] = &[
@@ -217,6 +220,7 @@ fn gen_schema(r: &mut Rng, lazy: bool) -> Schema {
     let mut s = Schema {
         inherits: Vec::new(),
         stanzas: Vec::new(),
+        short_reads: r.chance(1, 6),
     };
     let style = r.below(5);
     let name = "tag".to_string();
@@ -427,6 +431,14 @@ fn render(s: &Schema, order: &[usize]) -> String {
     for i in &s.inherits {
         out.push_str(&format!("inherit .{}\n", i));
     }
+    if s.short_reads {
+        let mut names: Vec<&String> = s.stanzas.iter().filter_map(|z| if let Stz::ReadDirect { name, .. } = z { Some(name) } else { None }).collect();
+        names.sort();
+        names.dedup();
+        for n in names {
+            out.push_str(&format!("attribute got_{} = x => got = x.{}\n", n, n));
+        }
+    }
     out.push('\n');
     for (ri, idx) in order.iter().enumerate() {
         let _ = ri;
@@ -477,6 +489,13 @@ fn render(s: &Schema, order: &[usize]) -> String {
                 query,
                 name,
                 tag_expr("@x")
+            )),
+            Stz::ReadDirect { query, name } if s.short_reads => out.push_str(&format!(
+                "{}\n{{\n  node n\n  attr (n) rd = \"{}\", self = {}, got_{} = @y\n}}\n\n",
+                query,
+                idx,
+                tag_expr("@y"),
+                name
             )),
             Stz::ReadDirect { query, name } => out.push_str(&format!(
                 "{}\n{{\n  node n\n  attr (n) rd = \"{}\", self = {}, got = @y.{}\n}}\n\n",
@@ -916,12 +935,13 @@ fn schema_to_json(s: &Schema) -> J {
             }
         })
         .collect();
-    json!({"inherits": s.inherits, "stanzas": st})
+    json!({"inherits": s.inherits, "stanzas": st, "short_reads": s.short_reads})
 }
 
 fn schema_from_json(j: &J) -> Schema {
     let g = |x: &J, k: &str| x[k].as_str().unwrap_or("").to_string();
     Schema {
+        short_reads: j["short_reads"].as_bool().unwrap_or(false),
         inherits: j["inherits"]
             .as_array()
             .map(|a| a.iter().filter_map(|x| x.as_str().map(|s| s.to_string())).collect())
@@ -1167,6 +1187,7 @@ pub fn make_case(ctx: &ShardCtx, i: u64) -> Case {
                 Stz::ReadDirect { query: "(integer) @y".into(), name: "tag".into() },
                 Stz::ReadDirect { query: "(assignment) @y".into(), name: "tag".into() },
             ],
+            short_reads: false,
         };
         order = vec![0, 1, 2];
     }
